@@ -28,7 +28,11 @@ def names(cleaned):
     from abacusnbody.data import compaso_halo_catalog as chc
     n = list(chc.user_dt.names)
     if cleaned:
-        n += list(chc.clean_dt_progen.names)
+        # documented cleaned columns (clean_dt) plus the main-progenitor columns that fields='all' adds; the private table
+        # clean_dt_progen is used when present, else the documented names
+        prog = getattr(chc, 'clean_dt_progen', None)
+        extra = list(prog.names) if prog is not None else list(chc.clean_dt.names) + ['N_mainprog', 'vcirc_max_L2com_mainprog', 'sigmav3d_L2com_mainprog']
+        n += [x for x in dict.fromkeys(extra)]
     return n
 
 
